@@ -38,6 +38,7 @@ def _env():
     env = dict(os.environ)
     env["RUSTFLAGS"] = GUARD_FLAGS
     env["CARGO_NET_OFFLINE"] = "true"
+    env["VERIF_GEN_DIR"] = os.path.join(WORK, "gen")
     env.pop("RUSTUP_TOOLCHAIN", None)
     return env
 
@@ -70,7 +71,6 @@ def run_group(group, run_dir, log):
     cmd += list(group.extra_kani)
     if group.cbmc_args:
         cmd += ["--cbmc-args"] + list(group.cbmc_args)
-    shell = "ulimit -v %d; exec \"$@\"" % (group.mem_gb * 1024 * 1024)
     t0 = time.time()
     with open(out_log, "w") as lf:
         lf.write("# " + " ".join(cmd) + "\n")
@@ -78,13 +78,7 @@ def run_group(group, run_dir, log):
         # overall cap: generous (harnesses may queue behind each other)
         waves = (len(group.harnesses) + max(1, group.jobs) - 1) // max(1, group.jobs)
         cap = 300 + group.timeout * waves + 20 * len(group.harnesses)
-        try:
-            p = subprocess.run(["bash", "-c", shell, "bash"] + cmd, cwd=HARNESS,
-                               env=_env(), stdout=lf, stderr=subprocess.STDOUT,
-                               timeout=cap)
-            rc = p.returncode
-        except subprocess.TimeoutExpired:
-            rc = -9
+        rc = _run_watched(cmd, lf, cap, group.mem_gb)
     wall = time.time() - t0
     log("  group %-28s %3d harnesses  rc=%s  %.0fs" % (group.name, len(group.harnesses), rc, wall))
     results = {}
@@ -100,7 +94,7 @@ def run_group(group, run_dir, log):
             results[h] = dict(status="error", reason="no JSON export (build failure, crash or overall cap); see " + out_log,
                               checks=[], time_s=0.0, stats={})
         return results, wall, text
-    stats = {c["harness_id"]: c.get("cbmc_stats", {}) for c in data.get("cbmc", [])}
+    stats = {c["harness_id"]: (c.get("cbmc_stats") or {}) for c in data.get("cbmc", [])}
     for r in data["verification_results"]["results"]:
         h = r["harness_id"]
         results[h] = dict(status=r["status"], checks=r.get("checks", []),
@@ -119,6 +113,64 @@ def run_group(group, run_dir, log):
     return results, wall, text
 
 
+def _descendants(pid):
+    """pids of all descendants of pid (via /proc)."""
+    kids = {}
+    for d in os.listdir("/proc"):
+        if not d.isdigit():
+            continue
+        try:
+            with open("/proc/%s/stat" % d) as f:
+                st = f.read()
+            ppid = int(st[st.rindex(")") + 2:].split()[1])
+            kids.setdefault(ppid, []).append(int(d))
+        except Exception:
+            pass
+    out, todo = [], [pid]
+    while todo:
+        x = todo.pop()
+        for k in kids.get(x, []):
+            out.append(k)
+            todo.append(k)
+    return out
+
+
+def _run_watched(cmd, lf, cap, mem_gb):
+    """Run cmd; a watchdog kills any CBMC descendant whose resident set exceeds
+    mem_gb (Kani then reports that harness as failed without failed checks =
+    inconclusive). `ulimit -v` is not used: it also hits kani-driver itself."""
+    p = subprocess.Popen(cmd, cwd=HARNESS, env=_env(), stdout=lf, stderr=subprocess.STDOUT)
+    t0 = time.time()
+    while True:
+        try:
+            return p.wait(timeout=5)
+        except subprocess.TimeoutExpired:
+            pass
+        if time.time() - t0 > cap:
+            for k in _descendants(p.pid):
+                try:
+                    os.kill(k, 9)
+                except Exception:
+                    pass
+            p.kill()
+            p.wait()
+            return -9
+        for k in _descendants(p.pid):
+            try:
+                with open("/proc/%d/comm" % k) as f:
+                    comm = f.read().strip()
+                if comm != "cbmc":
+                    continue
+                with open("/proc/%d/statm" % k) as f:
+                    rss_pages = int(f.read().split()[1])
+                if rss_pages * 4096 > mem_gb * (1 << 30):
+                    lf.write("\n# watchdog: killing cbmc pid %d, RSS %.1f GB > %d GB\n" % (k, rss_pages * 4096 / 2**30, mem_gb))
+                    lf.flush()
+                    os.kill(k, 9)
+            except Exception:
+                pass
+
+
 def playback_print(group, harness, run_dir):
     """Re-run one failing harness with concrete playback; returns the list of
     generated unit tests (source text)."""
@@ -131,9 +183,8 @@ def playback_print(group, harness, run_dir):
     cmd += list(group.extra_kani)
     if group.cbmc_args:
         cmd += ["--cbmc-args"] + list(group.cbmc_args)
-    shell = "ulimit -v %d; exec \"$@\"" % (group.mem_gb * 1024 * 1024)
     try:
-        p = subprocess.run(["bash", "-c", shell, "bash"] + cmd, cwd=HARNESS, env=_env(),
+        p = subprocess.run(cmd, cwd=HARNESS, env=_env(),
                            stdout=subprocess.PIPE, stderr=subprocess.STDOUT,
                            timeout=group.timeout + 300, text=True, errors="replace")
         out = p.stdout
